@@ -14,7 +14,9 @@ MODULES = ("contracts.report", "contracts.cli", "contracts.annotate", "contracts
 
 def run(ctx):
     e = engine(ctx, modules=MODULES)
-    verify_all(ctx, e, FUNCTIONS)
+    from pyvc.driver import generic_replay
+    for q in FUNCTIONS:
+        ctx.verify(e, q, replay=generic_replay(q) if q != "reuse.header._find_first_spdx_comment" else None)
     assumed_contracts(ctx, e, "C08")
     ctx.bounded.append(annot.preservation(ctx.tier))
     ctx.assume("comment_at_first_character returns an initial segment of its argument that ends at a line end (holds when '\\n' is the only "
